@@ -105,6 +105,13 @@ impl<'a> CompositeView<'a> {
             depth,
             MAX_NESTING_DEPTH
         );
+        let bitmap_end = 2usize.saturating_add(field_count.div_ceil(8));
+        ensure!(
+            data.len() >= bitmap_end,
+            "composite data too small for null bitmap: {} bytes, need at least {}",
+            data.len(),
+            bitmap_end
+        );
         Ok(Self {
             data,
             field_count,
